@@ -129,6 +129,15 @@ def _drive(args):
             isoc.iso8583.dumps({'MTI': '1240', 'PDS0001': 'warm-up %d' % i}, iso_config=isocheck.get_config(('pkg',)))
     for tid in range(lo, hi):
         r = drv.rng(seed, 'c01', cfgspec, codec, tid)
+        if tid % 25 == 7:
+            # a dumps that is (correctly) refused part-way must not influence the calls that follow
+            varbits = [b_ for b_ in bc if b_ != '1' and bc[b_]['field_type'] != 'FIXED' and not bc[b_].get('field_processor')
+                       and (bc[b_].get('field_python_type') or 'string') == 'string']
+            if varbits:
+                bad = {'MTI': '1240', 'DE' + varbits[len(varbits) // 2]: 'x' * 1200}
+                for b_ in varbits[:len(varbits) // 2][:3]:
+                    bad['DE' + b_] = 'ok'
+                isoc.do_dumps(bad, codec, bc, bool(tid & 1))
         m = isoc.gen_message(r, bc, alpha, maxbits=r.choice((3, 8, 20, 40)))
         out.append(isocheck.roundtrip_trace(tid, m, bc, codec, bool(tid & 1), 'random well-formed message'))
     return out
@@ -146,7 +155,7 @@ def run(rep, wd, tier, seed):
     nrand = 2500 if tier == 'thorough' else 150
     cfgs = [('pkg',), ('pkgvar', 0), ('pkgvar', 1)] + [('gen', seed * 100 + i) for i in range(6 if tier == 'thorough' else 2)]
     for cfgspec in cfgs:
-        for codec in (codecs if cfgspec[0] == 'pkg' else isocheck.CODECS_QUICK):
+        for codec in ((tuple(codecs) + (isocheck.CODECS_EXTRA if tier == 'quick' else ())) if cfgspec[0] == 'pkg' else isocheck.CODECS_QUICK):
             n = nrand if codec in isocheck.CODECS_QUICK else max(40, nrand // 10)
             for lo in range(0, n, 400):
                 jobs.append((seed, cfgspec, codec, 'rand', lo, min(n, lo + 400)))
